@@ -24,7 +24,8 @@ META = {
         'absence of effects as an observation of executions.'
         ' Also (D4): calls into modules that hold interpreter-wide settings (warnings, locale, signal, gc, ...) on the filter path.  (D2) every return of an if/return __repr__ is analysed.'
         ' Also (D3): generated fragments are never a %-format template.  (D5) no codec / module is looked up by a name taken from a literal.  pyparsing_common elements are modelled by their regular expressions.'
-        ' Also (D4): no attribute / global is resolved under a run-time name on the filter path.  (D1) reference-name token within the Haystack reference alphabet.'),
+        ' Also (D4): no attribute / global is resolved under a run-time name on the filter path.  (D1) reference-name token within the Haystack reference alphabet.'
+        ' Round 9: (D3) filter text that reaches the exec template through a string edit (replace, strip, slicing ...) is still filter text: violation with a CR witness.'),
     'rule_text': 'obligations = fragments reaching exec (per append/extend site), literal classes x repr conversions, '
                  'shape facts, ambient-effect call scan',
     'trusted_base': ['repr() of str/float/int/bool/None/bytes/list/dict/date/time/datetime re-reads as a literal of '
